@@ -117,6 +117,9 @@ class sx_memoryview(metaclass=_MVMeta):
             return SymMemoryView(x)
         if isinstance(x, SymBytes):
             return x
+        if getattr(x, '_sx_abstract_buffer', False):
+            # an abstract (symbolic-length) payload has no view model: inconclusive, never a TypeError of the code under test
+            raise EngineLimit('memoryview() of an abstract-length payload')
         return _memoryview(x)
 
 
